@@ -7,7 +7,7 @@ from hypothesis import strategies as st
 from .. import carriers, model
 from ..carriers import CANON, Carrier
 from ..core import SKIP, Sub
-from ..tests import REG, any_case
+from ..tests import REG, any_case, times_of
 from ..util import flags, sint
 
 ID = "C15"
@@ -23,7 +23,7 @@ ASSUMPTIONS = ["dask time arrays and non-UTC time zones are outside the statemen
                "pressure_increasing_test documents no missing-data handling: it gets fully present series",
                "valid_range_test on sequences without a dtype is called with dtype= as its docstring asks"]
 
-DATA_KINDS = ["list_none", "list_nan", "tuple_nan", "f32", "int", "masked_nan", "masked_junk", "masked_mixed", "masked_int", "masked_fill", "series", "series_shifted",
+DATA_KINDS = ["list_none", "list_nan", "tuple_nan", "f32", "int", "uint", "int16", "masked_nan", "masked_junk", "masked_mixed", "masked_int", "masked_fill", "series", "series_shifted",
               "dask", "object"]
 TIME_KINDS = [k for k in carriers.TIME_CARRIERS if k != "dt64ns"]
 NAMES = ["gross_range", "climatology", "spike", "roc", "flat_line", "attenuated", "density", "pressure", "location", "speed"]
@@ -70,7 +70,7 @@ def check_carriers(tc, rec):
     if t.aux or len(t.obs) > 1:
         for k in DATA_KINDS:
             combos.append(Carrier(data="f64", aux=k, junk=tc.get("junk", 0.0)))
-    tvals = tc["case"].get("t") or []
+    tvals = times_of(tc["case"]) or []
     if t.timed:
         for k in TIME_KINDS:
             if carriers.time_applicable(k, tvals):
@@ -203,8 +203,11 @@ def check_reuse(tc, rec):
     t = REG()[name]
     n = t.n(case)
     rec.note(n >= 1 and (t.timed or has_missing(t, case)), [f"test={name}", f"time={tc['time_kind']}", f"data={tc['data_kind']}"])
-    C = Carrier(data=tc["data_kind"], time=tc["time_kind"])
     other = _variant(case, name)
+    tk = tc["time_kind"]
+    if not (carriers.time_applicable(tk, times_of(case) or []) and carriers.time_applicable(tk, times_of(other) or [])):
+        tk = "dt64ns"  # (integer epoch seconds cannot hold sub-second instants)
+    C = Carrier(data=tc["data_kind"], time=tk)
     a_args, a_kw = t.build(case, C)
     first = _call(rec, name, t, a_args, a_kw, {"step": "first"})
     if first is SKIP:
